@@ -889,6 +889,21 @@ class NumpyModel:
     def np_arcsin(self, x):
         return vec(lambda u: alg.Fn("arcsin", u), x)
 
+    def np_cosh(self, x):
+        return vec(lambda u: alg.Fn("cosh", u), x)
+
+    def np_sinh(self, x):
+        return vec(lambda u: alg.Fn("sinh", u), x)
+
+    def np_tanh(self, x):
+        return vec(lambda u: alg.Fn("tanh", u), x)
+
+    def np_expm1(self, x):
+        return vec(lambda u: alg.Exp(u) - 1, x)
+
+    def np_log1p(self, x):
+        return vec(lambda u: alg.Fn("log", 1 + u), x)
+
     def np_arctan(self, x):
         return vec(lambda u: alg.Fn("arctan", u), x)
 
